@@ -1298,6 +1298,14 @@ def request_serialisation(prog, rep):
         f2(norm(ws[1].arg(1))) == "req_body" and f2(norm(ws[1].arg(2))) == "req_bodylen" and c.dominates(ws[0], ws[1])
     rep.check(ok, "W2-grammar", "head then body are queued", c.loc, "netbuf_write_write(head, headlen) must dominate netbuf_write_write(body, bodylen)",
               function="callback_connected", construct="write-order")
+    # every non-empty body is sent: no condition on the way to the body's write is false for a body of one byte
+    if ok:
+        from ..dataflow import decide_with
+        BL = norm(ws[1].arg(2))
+        skipped = [cond for cond, truth in c.edge_conds(ws[1]) if decide_with(cond, BL, 1) is not None and decide_with(cond, BL, 1) != truth]
+        rep.check(not skipped, "W2-grammar", "a body of any non-zero length is written", ws[1].where,
+                  "with req_bodylen == 1 the condition `%s` keeps the body from being sent" % (skipped[0].text[:40] if skipped else ""),
+                  function="callback_connected", construct="body-guard")
     # body parameters are the caller's, unmodified
     st = [e for e in f.all_elems() if e.is_assign and norm(e.kid(0))[0] == "." and norm(e.kid(0))[2] in ("req_body", "req_bodylen")]
     ok = len(st) == 2 and all(norm(e.kid(1))[0] == "." and norm(e.kid(1))[2] == norm(e.kid(0))[2][4:] for e in st)
@@ -1440,3 +1448,24 @@ def framing_order(prog, rep):
                   "conditions on this route: %s" % [(op, show(L), show(R)) for op, L, R, _ in guards(c)][:6], function="gotheaders", construct="route:" + what)
     if len(routes) < 4:
         rep.defer_broken("W3: fewer than 4 framing routes found in gotheaders")
+    # after an interim response the reader starts over as after a successful read: the header handler is re-entered with status 0
+    for c in g.calls("callback_read_header"):
+        rep.check(c.arg(1) is not None and norm(c.arg(1)) == ("c", 0), "W3-framing", "after a 1xx response the header reader is re-entered with status 0", c.where,
+                  "status %s is the reader's report of a failed read: every interim response would end the request" % (show(norm(c.arg(1))) if c.arg(1) is not None else "?"),
+                  function="gotheaders", construct="interim-status")
+    # the header block handed on ends right after the terminator that was found: offset of "\r\n\r\n" plus its four bytes
+    rh = u.func("callback_read_header")
+    if rh is not None:
+        for c in rh.calls("gotheaders"):
+            ln = norm(c.arg(2)) if c.arg(2) is not None else None
+            mc = [m for m in rh.calls("memcmp") if any(a is not None and a.strip() is not None and a.strip().strv == b"\r\n\r\n" for a in m.args)]
+            pos = None
+            for m in mc:
+                for a in m.args:
+                    t = norm(a) if a is not None else None
+                    if t is not None and t[0] == "&" and t[1][0] == "[]":
+                        pos = t[1][2]
+            rep.check(bool(mc) and pos is not None and ln in (("+", pos, ("c", 4)), ("+", ("c", 4), pos)), "W3-framing",
+                      "the header block is everything up to and including the blank line that was found", c.where,
+                      "length handed to gotheaders: %s; terminator found at %s, four bytes long" % (show(ln) if ln else "?", show(pos) if pos else "?"),
+                      function=rh.name, construct="head-length")
